@@ -543,7 +543,12 @@ func init() {
 			return Run(s)
 		},
 		Workers:     func(string) int { return 8 },
-		Parallel:    func(string) int { return 4 },
+		Parallel: func(tier string) int {
+			if tier == "thorough" {
+				return 8 // latency-bound (read delays), no timing verdicts in this property
+			}
+			return 4
+		},
 		CaseTimeout: 300 * time.Second,
 		Procs: func(tier string, shard int) int {
 			return []int{2, 4}[shard%2]
